@@ -15,6 +15,12 @@
  *   ln <name> <len>      mpt_named_traits              -> E:... | R:<errno>
  *   al <desc> <0|1>      mpt_alias_typeid(desc, end?)  -> A:<id>:<end offset or -> | R:<code>
  *   ti/tu <n>, vs/vt <fmt>, vc <type>   type_int.c / msgvalfmt.c -> V:<n> | R:<code>
+ *   fin                  process exit: the clean-up functions type_traits.c registered with atexit are run in
+ *                        the order exit() would run them (reverse registration order; atexit and free are seams);
+ *                        all live blocks reachable from the statics are listed beforehand, every free is logged:
+ *                        X:<blocks not freed>:<blocks freed twice>:<frees of anything else>:<all statics reset? 1|0>
+ *                          :<registered interface entries freed>:<registered metatype entries freed>:<generic chunks freed>
+ *                        operations after "fin" see the registry a later exit handler would see (a fresh one)
  *   sw                   sweep: W:<run-length list of mpt_type_traits(id) for id 0..0x1100>
  *                               |X:<id>=<entry>><id by full name>/<id by exact length>,... for every id of the
  *                                  interface and metatype ranges that has an entry
@@ -40,7 +46,30 @@ static void c06_add(const char *fmt, ...)
 }
 #define vh_tok c06_tok
 #define vh_add c06_add
+/* seams for the exit path: atexit() calls of type_traits.c are recorded (the forked child ends with _exit,
+ * the op "fin" runs the recorded functions the way exit() would), its free() calls are logged */
+#define C06_MAXH 64
+#define C06_MAXF 16384
+static void (*c06_handlers[C06_MAXH])(void);
+static int c06_nhandlers = 0;
+static const void *c06_freed[C06_MAXF];
+static int c06_nfreed = 0, c06_logging = 0;
+static int c06_atexit(void (*fn)(void))
+{
+	if (c06_nhandlers >= C06_MAXH) return -1;
+	c06_handlers[c06_nhandlers++] = fn;
+	return 0;
+}
+static void c06_free(void *p)
+{
+	if (c06_logging && p && c06_nfreed < C06_MAXF) c06_freed[c06_nfreed++] = p;
+	free(p);
+}
+#define atexit c06_atexit
+#define free c06_free
 #include "types/type_traits.c"   /* found through -I <tree>/mptcore: gives access to the static tables */
+#undef atexit
+#undef free
 #include "message.h"
 
 #define POOL 4200
@@ -190,6 +219,60 @@ static void sweep(void)
 		for (g = generic_types; g; g = g->next) vh_add("%s%d", g == generic_types ? "" : ".", g->used);
 	}
 }
+/* process exit */
+static void do_fini(void)
+{
+	static const void *snap[C06_MAXF];
+	void (*run[C06_MAXH])(void);
+	int ns = 0, i, j, n, leaked = 0, twice = 0, other = 0, pristine;
+	long ie = 0, me = 0, gc = 0;
+	const struct named_traits_chunk *m;
+	const struct generic_traits_chunk *g;
+	/* every block the registry owns, found from the statics (independent of the clean-up code) */
+	if (core_types) snap[ns++] = core_types;
+	if (scalar_types) snap[ns++] = scalar_types;
+	if (iovec_types) snap[ns++] = iovec_types;
+	if (dynamic_types) snap[ns++] = dynamic_types;
+	if (interface_types) {
+		snap[ns++] = interface_types;
+		for (i = 0; i < TypeInterfaceSize; i++) {
+			if (!interface_types[i]) continue;
+			snap[ns++] = interface_types[i];
+			if (i >= MPT_ENUM(_TypeInterfaceAdd) - MPT_ENUM(_TypeInterfaceBase)) ie++;
+		}
+	}
+	for (m = meta_types; m; m = m->next) {
+		snap[ns++] = m;
+		for (i = 0; i < m->used && ns < C06_MAXF; i++) { snap[ns++] = m->traits[i]; me++; }
+	}
+	if (me) me--;   /* the base metatype is built in */
+	for (g = generic_types; g; g = g->next) { snap[ns++] = g; gc++; }
+	/* what exit() does with the registered functions */
+	n = c06_nhandlers;
+	memcpy(run, c06_handlers, sizeof(run));
+	c06_nhandlers = 0;
+	c06_nfreed = 0;
+	c06_logging = 1;
+	for (i = n - 1; i >= 0; i--) run[i]();
+	c06_logging = 0;
+	for (i = 0; i < ns; i++) {
+		int hits = 0;
+		for (j = 0; j < c06_nfreed; j++) if (c06_freed[j] == snap[i]) hits++;
+		if (!hits) leaked++;
+		if (hits > 1) twice++;
+	}
+	for (j = 0; j < c06_nfreed; j++) {
+		int known = 0;
+		for (i = 0; i < ns; i++) if (c06_freed[j] == snap[i]) { known = 1; break; }
+		if (!known) other++;
+	}
+	pristine = !core_types && !scalar_types && !iovec_types && !dynamic_types && !dynamic_pos
+	        && !interface_types && !interface_pos && !meta_types && !generic_types;
+	vh_tok("X:%d:%d:%d:%d:%ld:%ld:%ld", leaked, twice, other, pristine, ie, me, gc);
+	/* pointers of the life that just ended mean nothing any more */
+	memset(seen_traits, 0, sizeof(seen_traits));
+	memset(seen_named, 0, sizeof(seen_named));
+}
 static void run_case(int ntok, char **tok)
 {
 	static char buf[4096], nm[4200];
@@ -283,6 +366,7 @@ static void run_case(int ntok, char **tok)
 		}
 		else if (!strcmp(op, "vc")) vh_tok("V:%d", mpt_msgvalfmt_code(vh_int(tok[t++])));
 		else if (!strcmp(op, "sw")) sweep();
+		else if (!strcmp(op, "fin")) do_fini();
 		else { vh_tok("?%s", op); break; }
 		fflush(stdout);
 	}
